@@ -132,6 +132,17 @@ impl SimEngine {
         self.0.persisted.borrow().next().0
     }
 
+    /// The execution layer prunes everything it has persisted so far (blocks below `next` are gone).
+    pub fn prune_all(&self) {
+        let next = self.0.persisted.borrow().next();
+        self.0.blocks.lock().unwrap().retain(|n, _| *n >= next.0);
+        self.0.persisted.send_modify(|p| {
+            if p.first < next {
+                p.first = next;
+            }
+        });
+    }
+
     /// Side channel: the execution layer obtained block `b` by other means (block sync) and persisted it.
     pub fn persist_block(&self, b: validator::Block) {
         let n = b.number().0;
